@@ -4,6 +4,7 @@ package main
 
 import (
 	"go/ast"
+	"go/token"
 	"go/types"
 	"strings"
 
@@ -382,7 +383,7 @@ func checkC05(c *Ctx) {
 	{
 		info := cib.Pkg.TypesInfo
 		txM := p.Method(dbT, "Transaction")
-		gs := p.Guards(cib, nil)
+		_ = p.Guards
 		viaTx, direct := false, 0
 		var loopFn string
 		for _, call := range callsIn(cib) {
@@ -393,20 +394,68 @@ func checkC05(c *Ctx) {
 				}
 			}
 		}
+		// the batch loop: for i := 0; i < L; i += B  -> L (bound) and B (step)
+		bound, step := "", ""
+		for _, lit := range p.AllLits(cib) {
+			ast.Inspect(lit.Body, func(n ast.Node) bool {
+				fs, ok := n.(*ast.ForStmt)
+				if !ok || fs.Cond == nil || fs.Post == nil {
+					return true
+				}
+				if be, ok := unparen(fs.Cond).(*ast.BinaryExpr); ok && be.Op == token.LSS {
+					if as, ok := fs.Post.(*ast.AssignStmt); ok && as.Tok == token.ADD_ASSIGN && len(as.Rhs) == 1 {
+						bound, step = canon(info, be.Y), canon(info, as.Rhs[0])
+					}
+				}
+				return true
+			})
+		}
+		singleBatch := func(e ast.Expr) bool {
+			be, ok := unparen(e).(*ast.BinaryExpr)
+			if !ok || bound == "" {
+				return false
+			}
+			x, y := canon(info, be.X), canon(info, be.Y)
+			switch be.Op {
+			case token.LEQ, token.LSS:
+				return x == bound && y == step
+			case token.GEQ, token.GTR:
+				return x == step && y == bound
+			}
+			return false
+		}
 		for _, call := range callsIn(cib) {
 			if id, ok := unparen(call.Fun).(*ast.Ident); ok && id.Name == loopFn && loopFn != "" {
 				direct++
-				facts, _ := gs.At(call.Pos())
-				okd := false
-				for f := range facts {
-					if strings.HasPrefix(f, "T:") && strings.Contains(f, "SkipDefaultTransaction") && strings.Contains(f, "<= ") {
-						okd = true
+				// the innermost if whose then-branch contains the direct call
+				var guard ast.Expr
+				ast.Inspect(cib.Body, func(n ast.Node) bool {
+					if ifs, ok := n.(*ast.IfStmt); ok && ifs.Body.Pos() <= call.Pos() && call.End() <= ifs.Body.End() {
+						guard = ifs.Cond
 					}
-					if f == fTrue(recvOrTx(facts)+".Config.SkipDefaultTransaction") {
-						okd = true
+					return true
+				})
+				okd := guard != nil
+				var bad []string
+				var disj func(e ast.Expr)
+				disj = func(e ast.Expr) {
+					e = unparen(e)
+					if be, ok := e.(*ast.BinaryExpr); ok && be.Op == token.LOR {
+						disj(be.X)
+						disj(be.Y)
+						return
 					}
+					cs := canon(info, e)
+					if strings.HasSuffix(cs, ".Config.SkipDefaultTransaction") || singleBatch(e) {
+						return
+					}
+					okd = false
+					bad = append(bad, cs)
 				}
-				rbt.Check(okd, cib.Name(), "direct batch loop", call.Pos(), "only when SkipDefaultTransaction || len <= batchSize", "the batch loop runs outside a transaction although several batches are written with default transactions on: a failure leaves earlier batches committed")
+				if guard != nil {
+					disj(guard)
+				}
+				rbt.Check(okd, cib.Name(), "direct batch loop", call.Pos(), "only when SkipDefaultTransaction || "+bound+" <= "+step, "the batch loop runs outside one transaction under a condition that is neither SkipDefaultTransaction nor 'all records fit into one batch' ("+bound+" <= "+step+"): "+strings.Join(bad, ", ")+" - a failure in a later batch leaves earlier batches committed")
 			}
 		}
 		rbt.Check(viaTx, cib.Name(), "batch loop through Transaction", cib.Body.Pos(), "Transaction(callFc)", "CreateInBatches never wraps its batches in one transaction")
